@@ -603,6 +603,12 @@ func (w *WEval) byteOf(v ssa.Value) *Lay {
 // parameter valuation, is dropped when one is decided false, and makes the buffer unknown when
 // a condition is left open or two live stores hit the same index.
 func (w *WEval) fixedBufferStores(al *ssa.Alloc, n int) *Lay {
+	return w.fixedBufferStoresWin(al, n, 0, n)
+}
+
+// fixedBufferStoresWin: the bytes lo..hi-1 of an n-byte local buffer as its element stores and PutUintN calls
+// (those on the path being read) leave them.
+func (w *WEval) fixedBufferStoresWin(al *ssa.Alloc, n, lo, hi int) *Lay {
 	items := make([]*Lay, n)
 	for _, r := range *al.Referrers() {
 		// the slice al[:] is the buffer value; its IndexAddr users are the element stores
@@ -725,11 +731,20 @@ func (w *WEval) fixedBufferStores(al *ssa.Alloc, n int) *Lay {
 	}
 	var out []*Lay
 	for i := range items {
+		if i < lo || i >= hi {
+			continue
+		}
 		switch {
 		case items[i] == nil:
 			out = append(out, &Lay{K: "const", S: "00"})
 		case items[i].K == "skip":
+			if i == lo {
+				return unk("the part read starts inside a multi-byte field of the buffer")
+			}
 		default:
+			if items[i].W > 1 && i+items[i].W > hi {
+				return unk("the part read ends inside a multi-byte field of the buffer")
+			}
 			out = append(out, items[i])
 		}
 	}
@@ -1096,6 +1111,12 @@ func (w *WEval) evalSlice(x *ssa.Slice) *Lay {
 			return unk("slice with a non-constant upper bound")
 		}
 		hi = int(k.Int64())
+	}
+	if al.Comment != "makeslice" && al.Comment != "slicelit" && al.Comment != "varargs" && al.Comment != "complit" {
+		// a named local array (var prefix [4]byte), part of it handed on after being filled
+		if eb, ok := at.Elem().Underlying().(*types.Basic); ok && eb.Kind() == types.Uint8 && n <= 64 {
+			return w.fixedBufferStoresWin(al, n, lo, hi)
+		}
 	}
 	if lo != 0 || hi != n {
 		if al.Comment != "makeslice" {
